@@ -14,6 +14,7 @@ import NR.Coll
 import NR.Estimate
 import NR.WaitEst
 import NR.Seq
+import NR.StopGen
 namespace NR.Driver
 open NR
 
@@ -279,9 +280,36 @@ def stepSeq (ws : List String) : String :=
     | _, _, _, _ => "bad-op"
   | _ => "bad-op"
 
+/-- `sgen <route csv> <gap:stop,…> <prev:stop:next,…> <startAtFirst> <endAtLast>`: what
+`NewSolutionStopGenerator` yields for the move against NR.StopGen.generate on the move's own stop positions, and the
+move's stop positions against NR.StopGen.positions of its gaps. -/
+def stepSgen (ws : List String) : String :=
+  match ws with
+  | [route, ins, poss, a, b] =>
+    let pair (q : String) : Option (Nat × Nat) :=
+      match q.splitOn ":" with
+      | [x, y] => (match x.toNat?, y.toNat? with
+        | some x, some y => some (x, y)
+        | _, _ => none)
+      | _ => none
+    let triple (q : String) : Option StopGen.Pos :=
+      match q.splitOn ":" with
+      | [x, y, z] => (match x.toNat?, y.toNat?, z.toNat? with
+        | some x, some y, some z => some ⟨x, y, z⟩
+        | _, _, _ => none)
+      | _ => none
+    match parseNatsCsv route, allSome ((ins.splitOn ",").map pair), allSome ((poss.splitOn ",").map triple) with
+    | some route, some ins, some poss =>
+      let out := StopGen.generate route poss (a = "1") (b = "1")
+      let posOk := StopGen.positions route ins == poss
+      "sgen " ++ showCsv (out.map toString) ++ " pos=" ++ (if posOk then "1" else "0")
+    | _, _, _ => "bad-op"
+  | _ => "bad-op"
+
 def step (st : State) (line : String) : State × String :=
   match words line with
   | "seq" :: ws => (st, stepSeq ws)
+  | "sgen" :: ws => (st, stepSgen ws)
   | "est" :: ws => (st, stepEst ws)
   | "coll" :: ws => let (c, o) := stepColl st.coll ws; ({ st with coll := c }, o)
   | "gen" :: ws => (st, stepGen ws)
